@@ -159,3 +159,75 @@ CONTRACTS = {
         modifies=["Operator.grounded_preconditions[self]", "Operator.grounded_effects[self]", "Operator.grounded[self]"],
         calls={"GroundedPrecondition.ground_preconditions": GPG + "ground_preconditions", "self._ground_conditional_effects": OPG + "_ground_conditional_effects"}),
 }
+
+# ---- deductive: ground_predicate is substitution, position by position --------------------------------------------------------------
+# subst(p) = p for a domain constant, parameters_map[p] otherwise.  The grounded fact keeps the parameter names of the predicate's
+# declaration (so that it is found in states), maps the i-th of them to subst(i-th argument) and takes the i-th type from the constant
+# / the action parameter that stands there.
+GU = "models.grounding_utils:"
+_DV = {"dict_str_ref": "PDDLType"}
+_DISTINCT = ("forall_int(lambda i: forall_int(lambda j: implies(i != j, {d}.keys()[i] != {d}.keys()[j]), 0, len({d}.keys())), 0, len({d}.keys()))")
+_DEF = "domain.predicates[predicate.name].signature"
+_ARG = "predicate.signature.keys()[i]"
+_SUBST = f"({_ARG} if {_ARG} in domain.constants else parameters_map[{_ARG}])"
+CONTRACTS[GU + "fix_grounded_predicate_types"] = dict(
+    prop="C20",
+    params={"lifted_predicate_params": ("seq", "str"), "predicate_signature": ("ref", "dict_str_ref"), "domain": ("ref", "Domain"), "action": ("ref", "Action")},
+    returns="none", dict_values=_DV, allocates=False,
+    requires=["allocated(predicate_signature)", "allocated(domain)", "allocated(domain.constants)", "allocated(action)", "allocated(action.signature)",
+              "predicate_signature != action.signature", _DISTINCT.format(d="predicate_signature")],
+    ensures=[
+        # same parameter names in the same order
+        "predicate_signature.keys() == old(predicate_signature.keys())",
+        # position i (as far as both lists reach) takes the type of the constant / action parameter standing there
+        "forall_int(lambda i: predicate_signature[predicate_signature.keys()[i]] == "
+        "(domain.constants[lifted_predicate_params[i]].type if lifted_predicate_params[i] in domain.constants else action.signature[lifted_predicate_params[i]]), "
+        "0, len(predicate_signature.keys()) if len(predicate_signature.keys()) <= len(lifted_predicate_params) else len(lifted_predicate_params))",
+        # positions beyond the argument list keep their type
+        "forall_int(lambda i: predicate_signature[predicate_signature.keys()[i]] == old(predicate_signature[predicate_signature.keys()[i]]), "
+        "len(lifted_predicate_params), len(predicate_signature.keys()))"],
+    raises={"KeyError": "exists_int(lambda i: lifted_predicate_params[i] not in domain.constants and lifted_predicate_params[i] not in action.signature, 0, "
+                        "len(predicate_signature.keys()) if len(predicate_signature.keys()) <= len(lifted_predicate_params) else len(lifted_predicate_params))"},
+    must_raise=["exists_int(lambda i: lifted_predicate_params[i] not in domain.constants and lifted_predicate_params[i] not in action.signature, 0, "
+                "len(predicate_signature.keys()) if len(predicate_signature.keys()) <= len(lifted_predicate_params) else len(lifted_predicate_params))"],
+    modifies=["dict_str_ref.keys[predicate_signature]", "dict_str_ref.map[predicate_signature]"],
+    loops={0: dict(invariants=[
+        "predicate_signature.keys() == old(predicate_signature.keys())",
+        "forall_int(lambda i: predicate_signature[predicate_signature.keys()[i]] == "
+        "(domain.constants[lifted_predicate_params[i]].type if lifted_predicate_params[i] in domain.constants else action.signature[lifted_predicate_params[i]]), 0, _i)",
+        "forall_int(lambda i: predicate_signature[predicate_signature.keys()[i]] == old(predicate_signature[predicate_signature.keys()[i]]), _i, len(predicate_signature.keys()))",
+        "forall_int(lambda i: lifted_predicate_params[i] in domain.constants or lifted_predicate_params[i] in action.signature, 0, _i)"],
+        modifies=["dict_str_ref.keys[predicate_signature]", "dict_str_ref.map[predicate_signature]"])})
+_RAISE = (f"predicate.name not in domain.predicates or exists_int(lambda i: {_ARG} not in domain.constants and "
+          f"({_ARG} not in parameters_map or {_ARG} not in action.signature), 0, len(predicate.signature.keys()))")
+CONTRACTS[GU + "ground_predicate"] = dict(
+    prop="C20", shards=6,
+    params={"predicate": ("ref", "Predicate"), "parameters_map": ("ref", "dict_str_str"), "domain": ("ref", "Domain"), "action": ("ref", "Action")},
+    locals={"predicate_object_mapping": ("ref", "dict_str_str"), "predicate_signature": ("ref", "dict_str_ref")},
+    returns=("ref", "GroundedPredicate"), dict_values=_DV,
+    requires=["allocated(predicate)", "allocated(predicate.signature)", "allocated(parameters_map)", "allocated(domain)", "allocated(domain.predicates)",
+              "allocated(domain.constants)", "allocated(action)", "allocated(action.signature)",
+              "forall_str(lambda k: implies(k in domain.predicates, allocated(domain.predicates[k]) and allocated(domain.predicates[k].signature)))",
+              # representation invariants: parameter names of a declaration are pairwise distinct; a literal has the arity of its declaration
+              "forall_str(lambda k: implies(k in domain.predicates, " + _DISTINCT.format(d="domain.predicates[k].signature") + "))",
+              f"implies(predicate.name in domain.predicates, len({_DEF}.keys()) == len(predicate.signature.keys()))"],
+    ensures=[
+        "fresh(result)", "result.name == predicate.name", "result.is_positive == predicate.is_positive",
+        # the grounded fact has its own signature and mapping objects, keyed by the declaration's parameter names, in order
+        "fresh(result.signature)", "fresh(result.object_mapping)",
+        f"len(result.signature.keys()) == len({_DEF}.keys())", f"len(result.object_mapping.keys()) == len({_DEF}.keys())",
+        f"forall_int(lambda i: result.signature.keys()[i] == {_DEF}.keys()[i] and result.object_mapping.keys()[i] == {_DEF}.keys()[i], 0, len({_DEF}.keys()))",
+        # substitution, position by position
+        f"forall_int(lambda i: result.object_mapping[{_DEF}.keys()[i]] == {_SUBST}, 0, len({_DEF}.keys()))",
+        # the type at position i is the one of the constant / action parameter standing there
+        f"forall_int(lambda i: result.signature[{_DEF}.keys()[i]] == (domain.constants[{_ARG}].type if {_ARG} in domain.constants else action.signature[{_ARG}]), 0, len({_DEF}.keys()))"],
+    raises={"KeyError": _RAISE}, must_raise=[_RAISE],
+    modifies=[],        # nothing that existed before the call is written: not the declaration, not the schema, not the map
+    calls={"fix_grounded_predicate_types": GU + "fix_grounded_predicate_types"},
+    loops={0: dict(invariants=[
+        "fresh(predicate_object_mapping)", "fresh(predicate_signature)", "predicate_object_mapping != predicate_signature",
+        "len(predicate_object_mapping.keys()) == _i",
+        f"forall_int(lambda i: predicate_object_mapping.keys()[i] == {_DEF}.keys()[i], 0, _i)",
+        f"forall_int(lambda i: predicate_object_mapping[{_DEF}.keys()[i]] == {_SUBST}, 0, _i)",
+        f"forall_int(lambda i: {_ARG} in domain.constants or {_ARG} in parameters_map, 0, _i)"],
+        modifies=["dict_str_str.keys[predicate_object_mapping]", "dict_str_str.map[predicate_object_mapping]"])})
